@@ -1457,3 +1457,38 @@ pub fn run_c20_lib(cfg: &Cfg) -> i32 {
     }
     rep.finish()
 }
+
+
+/// C14 over the real transports: absurd sizes with traffic behind them.
+pub fn run_c14_real(cfg: &Cfg) -> i32 {
+    let mut rep = Report::new(
+        "C14",
+        cfg,
+        "one evaluation = one real session (TLS / SSH / child process) with two requests outstanding: the reply to the first is 20 kB - 1 MB of text inside a <data> that is never closed, and its last kilobyte, its delimiter and the complete valid reply to the second request arrive in one unit; \
+         the first request must fail, the second must get its reply; distinct = distinct (transport, size)",
+    );
+    let sizes: Vec<usize> = if cfg.thorough() { vec![2_000, 20_000, 65_000, 65_537, 70_000, 100_000, 131_073, 300_000, 1_000_000] } else { vec![20_000, 70_000, 100_000, 300_000] };
+    let mut cases = Vec::new();
+    let mut id = 0;
+    for tr in [Tr::Tls, Tr::Ssh, Tr::Cli] {
+        for &size in &sizes {
+            id += 1;
+            cases.push(json!({"kind": "oversized", "id": id, "tr": tr.name(), "size": size}));
+        }
+    }
+    let results = run_cases(cases, 8, &[], Duration::from_secs(60));
+    for cr in &results {
+        let (c, r) = (&cr.case, &cr.result);
+        let key = format!("oversized|{}|{}", c["tr"], c["size"]);
+        rep.case(Some(key.as_bytes()));
+        match r["verdict"].as_str().unwrap_or("") {
+            "held" => rep.count("held"),
+            "violated" => {
+                let symptoms: Vec<String> = r["symptoms"].as_array().map(|a| a.iter().filter_map(|s| s.as_str().map(ToString::to_string)).collect()).unwrap_or_default();
+                rep.violation(&format!("real:{}:{}", c["tr"].as_str().unwrap_or("?"), symptoms.first().cloned().unwrap_or_default()), &format!("{symptoms:?}"), json!({"case": c, "result": r}));
+            }
+            other => rep.inconclusive(&key, &format!("{other}: {}", r["why"].as_str().unwrap_or(""))),
+        }
+    }
+    rep.finish()
+}
